@@ -191,6 +191,34 @@ def transformFieldSets (d : Device) (enums : List Enum) : M (List LFieldSet) := 
 
 /-! ### Blocks and methods (collect_into_blocks, get_method) -/
 
+/-- What a ref stands for (`get_method`, Ref arm): its target with the override applied — cfg and
+    description are the ref's own; address / offset, repeat, access and reset value are the
+    override's when it has them, else the target's; the overlap permission is the target's or the
+    override's — and the reset constructor its accessor uses. `none`: the override's kind is not the
+    target's (`expect` panics). -/
+def substRef (n : Names) (rf : RefObject) (resetFn : String) (target : Object) : Option (Object × String) :=
+  match rf.override, target with
+  | .block ov, .block h os =>
+    some (Object.block { h with cfg := rf.cfg, description := rf.description,
+                                addressOffset := ov.addressOffset.getD h.addressOffset,
+                                repeat_ := match ov.repeat_ with | some r => some r | none => h.repeat_ } os,
+          resetFn)
+  | .register ov, .register r =>
+    some (Object.register { r with cfg := rf.cfg, description := rf.description,
+                                   allowAddressOverlap := r.allowAddressOverlap || ov.allowAddressOverlap,
+                                   access := ov.access.getD r.access,
+                                   address := ov.address.getD r.address,
+                                   reset := match ov.reset with | some x => some x | none => r.reset,
+                                   repeat_ := match ov.repeat_ with | some x => some x | none => r.repeat_ },
+          if ov.reset.isSome then s!"new_as_{n.method rf.name}" else resetFn)
+  | .command ov, .command c =>
+    some (Object.command { c with cfg := rf.cfg, description := rf.description,
+                                  allowAddressOverlap := c.allowAddressOverlap || ov.allowAddressOverlap,
+                                  address := ov.address.getD c.address,
+                                  repeat_ := match ov.repeat_ with | some x => some x | none => c.repeat_ },
+          resetFn)
+  | _, _ => none
+
 mutual
 /-- `get_method`. `fuel` bounds the recursion through ref resolution (`search_object(..).clone()`
     is not a sub-term); it runs out only when a block ref sits inside its own target, where the
@@ -229,27 +257,8 @@ def getMethod (n : Names) (cfg : GlobalConfig) (all : List Object) (resetFn : St
     | .ref rf => do
       let target ← match searchObject rf.override.name all with
         | some t => pure t | none => throw (.panic "ref_expect")
-      let (reffed, resetFn') ← match rf.override, target with
-        | .block ov, .block h os =>
-          pure (Object.block { h with cfg := rf.cfg, description := rf.description,
-                                      addressOffset := ov.addressOffset.getD h.addressOffset,
-                                      repeat_ := match ov.repeat_ with | some r => some r | none => h.repeat_ } os,
-                resetFn)
-        | .register ov, .register r =>
-          pure (Object.register { r with cfg := rf.cfg, description := rf.description,
-                                         allowAddressOverlap := r.allowAddressOverlap || ov.allowAddressOverlap,
-                                         access := ov.access.getD r.access,
-                                         address := ov.address.getD r.address,
-                                         reset := match ov.reset with | some x => some x | none => r.reset,
-                                         repeat_ := match ov.repeat_ with | some x => some x | none => r.repeat_ },
-                if ov.reset.isSome then s!"new_as_{n.method rf.name}" else resetFn)
-        | .command ov, .command c =>
-          pure (Object.command { c with cfg := rf.cfg, description := rf.description,
-                                        allowAddressOverlap := c.allowAddressOverlap || ov.allowAddressOverlap,
-                                        address := ov.address.getD c.address,
-                                        repeat_ := match ov.repeat_ with | some x => some x | none => c.repeat_ },
-                resetFn)
-        | _, _ => throw (.panic "ref_expect")
+      let (reffed, resetFn') ← match substRef n rf resetFn target with
+        | some p => pure p | none => throw (.panic "ref_expect")
       let (m, bs) ← getMethod n cfg all resetFn' fuel reffed
       -- a ref to a block reuses the target's block types: what was collected on the way is dropped
       let bs' := match rf.override with | .block _ => [] | _ => bs
